@@ -20,6 +20,8 @@ type mailbox struct {
 	req      msg
 	grantSeq uint64
 	grantVal int64
+	abandon  uint64
+	ack      uint64
 	_        [64]byte
 }
 
@@ -46,6 +48,11 @@ func batonWait(tid int) int64 {
 	b := &boxesRB[tid]
 	want := b.reqSeq // every request is answered by exactly one grant (except OpDone)
 	for b.grantSeq != want {
+		if b.abandon != 0 {
+			// the execution ended in a deadlock: park for good instead of spinning
+			b.ack = 1
+			select {}
+		}
 		runtime.Gosched()
 	}
 	return b.grantVal
@@ -71,4 +78,16 @@ func batonGrant(tid int, v int64) {
 	b := &boxesRB[tid]
 	b.grantVal = v
 	b.grantSeq = taken[tid]
+}
+
+// batonAbandon tells a parked thread of a deadlocked execution to stop spinning and
+// waits until it has done so (its mailbox slot is reused by the next execution).
+//
+//go:norace
+func batonAbandon(tid int) {
+	b := &boxesRB[tid]
+	b.abandon = 1
+	for b.ack == 0 {
+		runtime.Gosched()
+	}
 }
